@@ -85,11 +85,12 @@ type fakeClient struct {
 	closeEnd bool // CloseStream answers with End(ErrDCPStreamClosed) like the server
 	openHook func(vb uint16)
 	holdOpen map[uint16]chan struct{} // OpenStream of these vBuckets returns only after release (request logged at entry)
+	ended    map[uint16]bool          // streams the server no longer has (a final End was pushed): CloseStream sends no End for them
 }
 
 func newFakeClient(buf *obuf, nvb int) *fakeClient {
 	return &fakeClient{buf: buf, obs: map[uint16]couchbase.Observer{}, high: map[uint16]uint64{}, flog: map[uint16]uint64{},
-		nvb: nvb, snap: newSnap(), failOpen: map[uint16]int{}, flogErr: map[uint16]error{}, closeEnd: true}
+		nvb: nvb, snap: newSnap(), failOpen: map[uint16]int{}, flogErr: map[uint16]error{}, closeEnd: true, ended: map[uint16]bool{}}
 }
 
 func (c *fakeClient) Ping() (*models.PingResult, error) {
@@ -137,6 +138,7 @@ func (c *fakeClient) OpenStream(vbID uint16, _ map[uint32]string, off *models.Of
 		return errors.New("injected open failure")
 	}
 	c.obs[vbID] = o
+	delete(c.ended, vbID)
 	u := c.flog[vbID]
 	hook := c.openHook
 	c.mu.Unlock()
@@ -159,6 +161,12 @@ func (c *fakeClient) CloseStream(vbID uint16) error {
 	ce := c.closeEnd
 	c.mu.Unlock()
 	c.buf.add(fmt.Sprintf("closereq %d", vbID))
+	c.mu.Lock()
+	gone := c.ended[vbID]
+	c.mu.Unlock()
+	if gone {
+		return errors.New("no such stream") // as the server answers (KEY_ENOENT); go-dcp only logs it
+	}
 	if o != nil && ce {
 		o.End(models.DcpStreamEnd{VbID: vbID}, gocbcore.ErrDCPStreamClosed)
 	}
@@ -170,6 +178,13 @@ func (c *fakeClient) GetCollectionIDs(string, []string) (map[uint32]string, erro
 func (c *fakeClient) GetAgentConfigSnapshot() (*gocbcore.ConfigSnapshot, error)    { return c.snap, nil }
 func (c *fakeClient) GetDcpAgentConfigSnapshot() (*gocbcore.ConfigSnapshot, error) { return c.snap, nil }
 func (c *fakeClient) GetAgentQueues() []*models.AgentQueue                        { return nil }
+// markEnded: the harness pushed an End for this vBucket (the server-side stream is gone unless it is re-requested)
+func (c *fakeClient) markEnded(vb uint16) {
+	c.mu.Lock()
+	c.ended[vb] = true
+	c.mu.Unlock()
+}
+
 func (c *fakeClient) releaseHolds() {
 	c.mu.Lock()
 	defer c.mu.Unlock()
